@@ -109,18 +109,18 @@ def run_env(d):
     """glibc's checking allocator makes heap overruns inside an algorithm abort where they happen (and identically on
     every run) instead of corrupting a later case."""
     env = dict(os.environ, LD_LIBRARY_PATH=os.path.join(d, "stmp"))
-    if MALLOC_DEBUG:
-        env.update(LD_PRELOAD=MALLOC_DEBUG, MALLOC_CHECK_="3", MALLOC_PERTURB_="165")   # + fresh memory has one fixed content
+    if MALLOC_DEBUG and os.environ.get("C29_MALLOC", "1") != "0":
+        env.update(LD_PRELOAD=MALLOC_DEBUG, MALLOC_CHECK_="3")
     return env
 
 
-def run_ranges(binary, d, coll, algo, layout, grid, ranges, timeout, tag, nranks=None):
+def run_ranges(binary, d, coll, algo, layout, grid, ranges, timeout, tag, nranks=None, minsize=1):
     """nranks: size of MPI_COMM_WORLD for this simulation (>= the largest communicator of the cases run)."""
     score = os.path.join(d, "score-%s" % tag)
     with open(score, "wb") as f:
         f.write(b"\xff" * 4096)      # every cur[] = -1: no rank is inside a case
     env = run_env(d)
-    cmd = command(binary, d, coll, algo, layout, [grid, "run", score] + ["%d:%d" % r for r in ranges], nranks)
+    cmd = command(binary, d, coll, algo, layout, [grid, "run", score, "sizes=%d-%d" % (minsize, world(grid))] + ["%d:%d" % r for r in ranges], nranks)
     p = subprocess.Popen(cmd, stdout=subprocess.PIPE, stderr=subprocess.PIPE, env=env, start_new_session=True)
     res = RunResult()
     res.timeout = False
@@ -276,7 +276,8 @@ SLICE_S = 4.0       # a worker gives the rest of a crash-heavy piece back to the
 
 
 def timeout_for(ncases, algo):
-    return 15.0 + 0.02 * ncases * (25 if algo == "automatic" else 1)
+    """Generous (the machine is shared): only a genuine hang ever waits this long; deadlocks are reported by SimGrid at once."""
+    return 60.0 + 0.1 * ncases * (25 if algo == "automatic" else 1)
 
 
 def bad_kind(b):
@@ -290,11 +291,11 @@ def bad_text(b):
 def run_piece(task):
     """Runs the case ids in task['ranges'] of one (collective, algorithm, layout); every time the simulation dies the
     case in progress is recorded and the run resumes after it. Gives back what is left after SLICE_S seconds."""
-    binary, d, coll, algo, layout, grid, ranges, cells = task      # cells[id] = (np, count)
+    binary, d, coll, algo, layout, grid, ranges, cells, minsize = task      # cells[id] = (np, count)
     t0 = time.time()
     tag = "%s-%s-%s-%d" % (coll, algo, layout, os.getpid())
     out = {"coll": coll, "algo": algo, "layout": layout, "runs": 0, "failures": [], "refused": [], "errcodes": [],
-           "completed": 0, "rest": [], "cut": []}
+           "completed": 0, "rest": [], "cut": [], "minsize": minsize}
     pending = list(ranges)
     crashes = {}     # (np, count, kind) -> simulations killed by a case of that cell
     size0 = sum(b - a for a, b in pending)
@@ -303,7 +304,7 @@ def run_piece(task):
         out["runs"] += 1
         # always the full world of the grid: some algorithms look beyond the communicator (hosts, world ranks), so
         # a case must see the same world in a batch and when it is re-run alone
-        return run_ranges(binary, d, coll, algo, layout, grid, rg, to, tag)
+        return run_ranges(binary, d, coll, algo, layout, grid, rg, to, tag, minsize=out["minsize"])
 
     def harvest(res, limit):
         for cid, b in res.bad.items():
@@ -316,7 +317,19 @@ def run_piece(task):
             if cid < limit and in_ranges(pending, cid):
                 out["refused"].append((cid, m))
 
-    guard = 0
+    def cut_cell(culprit, kind):
+        nonlocal pending
+        cell = cells[culprit]
+        n = crashes[cell + (kind,)] = crashes.get(cell + (kind,), 0) + 1
+        if n >= (1 if kind.startswith("hang") else CUT_AFTER):
+            # every further case of this (np, count) cell would cost one more dead simulation: the cell is a
+            # recorded failure already, its remaining cases are reported as not run
+            drop = [i for a, b in pending for i in range(a, b) if cells[i] == cell]
+            if drop:
+                pending = _compress([i for a, b in pending for i in range(a, b) if cells[i] != cell])
+                out["cut"].append((cell[0], cell[1], kind, len(drop)))
+
+    guard, slow = 0, 1
     while pending:
         if out["runs"] and time.time() - t0 > SLICE_S:
             out["rest"] = pending
@@ -325,7 +338,7 @@ def run_piece(task):
         if guard > size0 + 10:
             raise SystemExit("C29: driver does not make progress on %s/%s (exit 2)" % (coll, algo))
         size = sum(b - a for a, b in pending)
-        res = go(pending, timeout_for(size, algo))
+        res = go(pending, slow * timeout_for(size, algo))
         if os.environ.get("C29_DEBUG"):
             common.log("run", coll, algo, layout, pending, "complete", res.complete, "inprog", res.inprog, "rc", res.rc,
                        "done", res.done, classify(res) if not res.complete else "")
@@ -337,13 +350,26 @@ def run_piece(task):
             # died outside any case (setup, between cases, finalize): shortest failing prefix by bisection
             ids = [i for a, b in pending for i in range(a, b)]
             r0 = go([(0, 0)], 30.0)
+            if not r0.complete and out["minsize"] == 1:
+                # creating the communicators dies with this algorithm selected. If only the 1-rank communicator is the
+                # problem, the cases with np=1 are that failure and the rest of the shard runs without that communicator
+                kind, text = classify(r0)
+                out["minsize"] = 2
+                if go([(0, 0)], 30.0).complete:
+                    ones = [i for i in ids if cells[i][0] == 1]
+                    out["failures"] += [(i, kind + ":comm-creation", text) for i in ones]
+                    pending = _compress([i for i in ids if cells[i][0] != 1])
+                    continue
+                out["minsize"] = 1
             if not r0.complete:   # the algorithm breaks communicator creation / finalisation with no case at all
                 kind, text = classify(r0)
                 out["failures"].append((ids[0], kind + ":setup", text))
-                out["setup_failure"] = True
+                out["setup_failure"] = sum(b - a for a, b in pending)
                 pending = []
                 break
             lo, hi = 0, len(ids)          # invariant: prefix ids[:hi] fails, ids[:lo] passes
+            if len(ids) > 1 and not go([(ids[0], ids[0] + 1)], 30.0).complete:
+                hi = 1                    # usual suspect: creating the communicator of the first case
             while hi - lo > 1:
                 mid = (lo + hi) // 2
                 if go(_compress(ids[:mid]), timeout_for(mid, algo)).complete:
@@ -354,10 +380,20 @@ def run_piece(task):
             kind, text = classify(res)
             out["failures"].append((culprit, kind + ":outside-case", text))
             pending = subtract(pending, ids[0], culprit)
+            cut_cell(culprit, kind + ":outside-case")
             continue
         limit = res.inprog[0]
         harvest(res, limit)
         kind, text = classify(res)
+        if kind == "hang":
+            # a timeout is a hang only if a case in progress also hangs alone; otherwise the machine was just slow
+            alone = {cid: go([(cid, cid + 1)], 120.0) for cid in res.inprog}
+            if all(r.complete for r in alone.values()):
+                slow *= 3
+                if slow > 30:
+                    raise SystemExit("C29: %s/%s times out in a batch but never alone (exit 2)" % (coll, algo))
+                pending = subtract(pending, limit, -1)
+                continue
         culprit = None
         if len(res.inprog) == 1:
             culprit = res.inprog[0]
@@ -375,16 +411,7 @@ def run_piece(task):
             out["failures"].append((culprit, kind, text))
         pending = subtract(pending, limit, culprit)
         if kind != "refused":
-            cell = cells[culprit]
-            n = crashes[cell + (kind,)] = crashes.get(cell + (kind,), 0) + 1
-            if n >= (1 if kind == "hang" else CUT_AFTER):
-                # every further case of this (np, count) cell would cost one more dead simulation: the cell is a
-                # recorded failure already, its remaining cases are reported as not run
-                drop = [i for a, b in pending for i in range(a, b) if cells[i] == cell]
-                if drop:
-                    keep = [i for a, b in pending for i in range(a, b) if cells[i] != cell]
-                    pending = _compress(keep)
-                    out["cut"].append((cell[0], cell[1], kind, len(drop)))
+            cut_cell(culprit, kind)
     out["completed"] = size0 - sum(b - a for a, b in out["rest"]) - sum(c[3] for c in out["cut"])
     out["wall"] = round(time.time() - t0, 2)
     return out
@@ -392,13 +419,13 @@ def run_piece(task):
 
 def confirm(task):
     """Rule 3: the smallest case of a failure class is re-run alone, twice, and must fail identically both times."""
-    binary, d, coll, algo, layout, grid, cids, batch_kind, nps = task
+    binary, d, coll, algo, layout, grid, cids, batch_kind, nps, minsize = task
     tag = "cf-%s-%s-%s-%d" % (coll, algo, layout, os.getpid())
     tried = []
     for cid in cids:
         got = []
         for _ in range(2):
-            r = run_ranges(binary, d, coll, algo, layout, grid, [(cid, cid + 1)], 40.0, tag)
+            r = run_ranges(binary, d, coll, algo, layout, grid, [(cid, cid + 1)], 120.0, tag, minsize=1 if nps[cid] == 1 else minsize)
             if not r.complete:
                 k, t = classify(r)
             elif cid in r.bad:
@@ -408,7 +435,8 @@ def confirm(task):
             got.append((k, t))
         tried.append((cid, [g[0] for g in got]))
         if got[0][0] == got[1][0] and got[0][0] not in ("ok", "refused"):
-            return {"ok": True, "cid": cid, "kind": got[0][0], "text": got[0][1], "tried": tried}
+            return {"ok": True, "cid": cid, "kind": got[0][0], "text": got[0][1], "tried": tried,
+                    "minsize": 1 if nps[cid] == 1 else minsize}
         if got[0][0] != got[1][0]:
             break
     return {"ok": False, "tried": tried}
@@ -476,9 +504,9 @@ def _run(ctx, binary, d):
         todo = list(order)
         running = {}
 
-        def submit(shard, ranges):
+        def submit(shard, ranges, minsize=1):
             coll, algo, layout = shard
-            f = ex.submit(run_piece, (binary, d, coll, algo, layout, grid, ranges, cells[coll]))
+            f = ex.submit(run_piece, (binary, d, coll, algo, layout, grid, ranges, cells[coll], minsize))
             running[f] = shard
             acc[shard]["open"] += 1
             acc[shard]["started"] = True
@@ -502,7 +530,7 @@ def _run(ctx, binary, d):
                         acc[shard]["abandoned"] = True
                     else:
                         for piece in split_rest(r["rest"], case_lists[shard[0]]):
-                            submit(shard, piece)
+                            submit(shard, piece, r["minsize"])
         # ---- phase 2: one representative per (collective, algorithm, failure kind), confirmed alone twice
         groups = {}
         for shard in shards:          # flat before smp4 by construction of the list
@@ -512,19 +540,20 @@ def _run(ctx, binary, d):
             coll, algo, layout = shard
             fl = sorted(x for p in a["pieces"] for x in p["failures"])
             for cid, kind, text in fl:
-                g = groups.setdefault((coll, algo, kind), {"layout": layout, "cases": [], "text": text, "n": 0, "other": 0})
+                g = groups.setdefault((coll, algo, kind), {"layout": layout, "cases": [], "text": text, "n": 0, "other": 0,
+                                                           "minsize": max(p["minsize"] for p in a["pieces"])})
                 if g["layout"] == layout:
                     g["cases"].append(cid)
                 else:
                     g["other"] += 1
         keys = list(groups)
         conf = list(ex.map(confirm, [(binary, d, k[0], k[1], groups[k]["layout"], grid, groups[k]["cases"][:3], k[2],
-                                      {c: case_lists[k[0]][c]["np"] for c in groups[k]["cases"][:3]}) for k in keys]))
+                                      {c: case_lists[k[0]][c]["np"] for c in groups[k]["cases"][:3]}, groups[k]["minsize"]) for k in keys]))
     summarize(ctx, acc, shards, case_lists, grid, algos, groups, dict(zip(keys, conf)))
 
 
 def summarize(ctx, acc, shards, case_lists, grid, algos, groups, conf):
-    evaluations = nontrivial = runs = done = not_started = cut_cases = cut_cells = 0
+    evaluations = nontrivial = runs = done = not_started = cut_cases = cut_cells = blocked = 0
     refused_tab, err_tab, per_coll, slow = {}, {}, {}, []
     for shard in shards:
         a = acc[shard]
@@ -544,8 +573,11 @@ def summarize(ctx, acc, shards, case_lists, grid, algos, groups, conf):
         ncut = sum(c[3] for p in a["pieces"] for c in p["cut"])
         cut_cases += ncut
         cut_cells += sum(len(p["cut"]) for p in a["pieces"])
+        nblocked = sum(p.get("setup_failure", 0) for p in a["pieces"])    # nothing runs at all with this algorithm selected
+        blocked += nblocked
         covered = sum(p["completed"] for p in a["pieces"]) + ncut
-        if covered != len(cases) and not any(p.get("setup_failure") for p in a["pieces"]):
+        ncut += nblocked
+        if covered != len(cases):
             raise SystemExit("C29: shard %s covered %d of %d cases (driver bug, exit 2)" % (shard, covered, len(cases)))
         evaluations += len(cases) - ncut
         # conservative: the cut cases of a shard are subtracted from its non-trivial count as if all were non-trivial
@@ -578,7 +610,7 @@ def summarize(ctx, acc, shards, case_lists, grid, algos, groups, conf):
             c["kind"], n, "" if n == 1 else "s", ctx.tier,
             (" (+%d with the other layout)" % g["other"]) if g["other"] else "", describe(case, g["layout"]), c["text"][:300])
         v = Violation(key, what, {"coll": coll, "algo": algo, "layout": g["layout"], "grid": grid, "id": c["cid"],
-                                  "params": case, "kind": c["kind"]})
+                                  "params": case, "kind": c["kind"], "minsize": c["minsize"]})
         seen[key] = v
         violations.append(v)
     if unstable:
@@ -602,6 +634,7 @@ def summarize(ctx, acc, shards, case_lists, grid, algos, groups, conf):
                 "depends on another rank's data, and the algorithm did not refuse the case",
         "samples": samples, "exhaustive": not_started == 0 and cut_cases == 0,
         "exhaustive_outside_cut_cells": not_started == 0,
+        "cases_not_run_because_mpi_setup_itself_fails_with_the_algorithm": blocked,
         "cells_cut_short": cut_cells, "cases_not_run_in_cut_cells": cut_cases,
         "cut_rule": "a (collective, algorithm, layout, np, count) cell whose cases killed %d simulations the same way (1 for a hang) is a "
                     "recorded failure; its remaining cases (other types/ops/roots/variants) are not run" % CUT_AFTER,
@@ -637,7 +670,7 @@ def replay(ctx, case):
         setup_dir(d)
         c = case["case"]
         tag = "replay-%d" % os.getpid()
-        res = run_ranges(binary, d, c["coll"], c["algo"], c["layout"], c["grid"], [(c["id"], c["id"] + 1)], 60.0, tag)
+        res = run_ranges(binary, d, c["coll"], c["algo"], c["layout"], c["grid"], [(c["id"], c["id"] + 1)], 60.0, tag, minsize=c.get("minsize", 1))
         print("case: %s/%s %s" % (c["coll"], c["algo"], describe(c["params"], c["layout"])))
         print("equivalent: smpirun -np %d -platform plat.xml -hostfile hf_%s %s ./c29coll %s %s run <scorefile> %d:%d" % (
             world(c["grid"]), c["layout"], "" if c["algo"] == "-" else "--cfg=smpi/%s:%s" % (c["coll"], c["algo"]), c["coll"], c["grid"], c["id"], c["id"] + 1))
